@@ -208,8 +208,10 @@ def run(ctx: Ctx) -> None:
                   ("grandchild", ["w"], ["w", "x y", "d.ir"]), ("spaces", ["w", "x y"], ["w", "my dir", "é"])]
     for _ in range(ctx.n(6, 60)):
         for rel, ad, bd in placements:
-            cases.append({"kind": "place", "rel": rel, "a_dir": ad, "b_dir": bd, "a_name": rng.choice(["a", "a.dict", "my a"]),
-                          "b_name": rng.choice(["b", "b.dict", "b c", "é.d"])})
+            an = rng.choice(["a", "a.dict", "my a", "paramDict"])
+            # the included file may carry the same name as the including one when it lives in another folder
+            bn = an if (ad != bd and rng.random() < 0.35) else rng.choice(["b", "b.dict", "b c", "é.d"])
+            cases.append({"kind": "place", "rel": rel, "a_dir": ad, "b_dir": bd, "a_name": an, "b_name": bn})
     process(ctx, cases)
 
 
